@@ -65,12 +65,18 @@ class Spec(_masterprop.MasterSpec):
 def _m1(quick):
     cfg = mastercfg.m1()
     cfg['monitors'] = [mastermon.mon_c09]
-    cfg['allow_nocycle'] = not quick
+    cfg['allow_nocycle'] = True
+    # non-initial start states (DESIGN 2.2): two placed instances, pressure
+    cfg['seeds'] = [
+        (),
+        (('app+', 'id', True), ('app+', 'id', True)),
+        (('app+', 'sm', True), ('app+', 'hi', True), ('app+', 'hi', True)),
+    ]
     cfg['events'] = mastercfg.ev(
         ('app+', 'sm'), ('app+', 'id'), ('app+', 'hi'), ('app+', 'on'),
         ('app-', 0), ('prio', 0, 100),
         ('pres-', 's0'), ('pres+', 's0', 0), ('pres+', 's0', 1),
-        ('pres-', 's1'), ('pres+', 's1', 0),
+        ('pres-', 's1'), ('pres+', 's1', 0), ('pres-', 's2'), ('pres+', 's2', 0),
         ('srv', 's0', 1), ('srv-', 's1'), ('srv+', 's1', 0),
         ('idg', 'g', 1), ('idg', 'g', 2),
         ('state', 's0', 'frozen', 0), ('state', 's0', 'up', -1),
@@ -81,7 +87,7 @@ def _m1(quick):
 
 def configs(ctx):
     if ctx.quick:
-        return [('M1', _m1(True), 2, 0)]
+        return [('M1', _m1(True), 1, 1)]
     return [('M1', _m1(False), 3, 1)]
 
 
